@@ -8,6 +8,7 @@
 //! prints one JSON object on stdout.
 
 mod model;
+mod proto;
 
 use model::*;
 use serde_json::{Value, json};
@@ -978,12 +979,13 @@ fn main() {
             c08(&mut tmp);
             for v in tmp.violations { if v["contract"].as_str().unwrap_or("").contains("panic") { out.violations.push(v); } }
             for b in tmp.bounded { out.bounded.push(b); }
+            proto::c17(&mut out);
         } }
         "C04" => c04(&mut out, thorough),
         "C06" => c06(&mut out, thorough),
         "C08" => c08(&mut out),
-        "C13" => c13(&mut out),
-        "C15" => c15(&mut out, thorough),
+        "C13" => { c13(&mut out); proto::c13(&mut out); }
+        "C15" => { c15(&mut out, thorough); proto::c15(&mut out); }
         "C19" => c19(&mut out),
         _ => {}
     }
